@@ -18,10 +18,10 @@ func ParseFromSpec(s string) (*FromSpec, error) {
 		addrSpec: nil,
 		params:   make([]KeyValue, 0)}
 
-	laquot_pos := strings.Index(s, "<")
+	laquot_pos := indexUnquoted(s, '<')
 	raquot_pos := -1
 	if laquot_pos != -1 {
-		raquot_pos = strings.Index(s, ">")
+		raquot_pos = indexUnquoted(s, '>')
 		if raquot_pos == -1 || raquot_pos < laquot_pos {
 			return nil, fmt.Errorf("malformatted header From: %s", s)
 		}
